@@ -113,6 +113,46 @@ pub fn dbopen(args: &[String]) {
     }
 }
 
+/// `dbhold <queryfile>`: a LONG-LIVED on-disk session. The database is opened on disk and
+/// answers the queries; then, while it stays open, another start of the tool finds the index
+/// directory gone, recreates it and is killed before it commits anything (a child process of this
+/// binary, crash point 4); after more than a second the SAME session answers the queries again.
+/// Prints `FIRST`, the answers, `SECOND`, the answers.
+pub fn dbhold(args: &[String]) {
+    use std::io::Write;
+    let db = match Db::open() {
+        Ok(db) => db,
+        Err(e) => {
+            println!("OPENERR {}", e.to_string().replace('\n', " "));
+            return;
+        }
+    };
+    let qs = std::fs::read_to_string(&args[0]).unwrap_or_default();
+    let ask = |tag: &str| {
+        let out = std::io::stdout();
+        let mut out = std::io::BufWriter::new(out.lock());
+        writeln!(out, "{}", tag).unwrap();
+        for l in qs.lines() {
+            let q = String::from_utf8(hex_decode(l.trim())).unwrap();
+            writeln!(out, "{}", answer_line(&db, &q)).unwrap();
+        }
+    };
+    ask("FIRST");
+    std::thread::sleep(std::time::Duration::from_millis(1500));
+    let data = std::path::PathBuf::from(std::env::var("XDG_DATA_HOME").unwrap()).join("facts");
+    let _ = std::fs::remove_file(data.join("meta.json"));
+    let _ = std::fs::remove_dir_all(data.join("index"));
+    let exe = std::env::current_exe().unwrap();
+    let _ = std::process::Command::new(exe)
+        .args(["dbopen", "disk", &args[0]])
+        .env("ANYTHING_VERIF_CRASH", "4")
+        .stdout(std::process::Stdio::null())
+        .stderr(std::process::Stdio::null())
+        .status();
+    std::thread::sleep(std::time::Duration::from_millis(1800));
+    ask("SECOND");
+}
+
 pub fn topk(_args: &[String]) {}
 
 fn open_disk_index(dir: &str) -> tantivy::Result<tantivy::Index> {
